@@ -43,6 +43,11 @@ pub struct CCfg {
     pub capacity: u32,
     pub batch: u32,
     pub gmode: GuardMode,
+    /// which hot keys carry the bit that decides low/high half when a 64-bin table is split:
+    /// 0 none (the whole hot bin stays in the low half), 1 all (whole bin moves to the high half),
+    /// 2 every second key, 3 all but the first two (replay files written before this field: 0)
+    #[serde(default)]
+    pub hot_pat: u8,
 }
 
 #[derive(Clone, Debug, PartialEq, Eq, Serialize, Deserialize)]
@@ -55,10 +60,24 @@ pub struct Prog {
     pub threads: Vec<Vec<COp>>,
 }
 
-/// hot keys collide in one bin under the identity hasher for every table up to 1024 bins
+/// hot keys collide in one bin under the identity hasher for every table up to 64 bins (up to 1024
+/// bins when `hot_pat` is 0)
+static HOT_PAT: std::sync::atomic::AtomicU8 = std::sync::atomic::AtomicU8::new(0);
+/// set by `exec`/`build_map` from the program's configuration (one execution at a time per process)
+pub fn set_hot_pat(p: u8) {
+    HOT_PAT.store(p, std::sync::atomic::Ordering::SeqCst);
+}
+fn pat_high(i: u16) -> bool {
+    match HOT_PAT.load(std::sync::atomic::Ordering::Relaxed) {
+        0 => false,
+        1 => true,
+        2 => i % 2 == 1,
+        _ => i >= 2,
+    }
+}
 pub fn hot_tag(i: u16) -> u32 {
     if i < 16 {
-        (i as u32) * 1024
+        (i as u32) * 1024 + if pat_high(i) { 64 } else { 0 }
     } else {
         5000 + i as u32
     }
@@ -177,6 +196,9 @@ pub struct HbSummary {
 }
 
 pub struct ConcOut {
+    /// address range of the map object itself (its control words: table, next_table, size_ctl,
+    /// transfer_index, count)
+    pub map_range: (usize, usize),
     pub recs: Recs,
     pub verdict: Option<Verdict>,
     pub trace: Vec<TraceEnt>,
@@ -535,6 +557,7 @@ fn run_thread(wk: &Wk<'_>, map: &FMap, cfg: &CCfg, ops: &[COp], hold: bool, log:
 }
 
 pub fn build_map(prog: &Prog) -> (Arc<FMap>, BTreeMap<u32, (u32, u64, u64)>) {
+    set_hot_pat(prog.cfg.hot_pat);
     let c = seize::Collector::new().batch_size(prog.cfg.batch as usize);
     let map = FMap::with_capacity_and_hasher(prog.cfg.capacity as usize, HB(prog.cfg.hmode)).with_collector(c);
     let mut init = BTreeMap::new();
@@ -572,11 +595,13 @@ impl Default for SchedSpec<'_> {
 
 /// run one (program, schedule) pair
 pub fn exec(pool: &Pool, prog: &Prog, spec: SchedSpec<'_>, opts: &ExecOpts, map_in: Option<(Arc<FMap>, BTreeMap<u32, (u32, u64, u64)>)>) -> ConcOut {
+    set_hot_pat(prog.cfg.hot_pat);
     if map_in.is_none() {
         ledger_reset();
     }
     let (map, init) = map_in.unwrap_or_else(|| build_map(prog));
     let before = inspect::shape(&unsafe { map.verif_dump() });
+    let map_range = (Arc::as_ptr(&map) as usize, Arc::as_ptr(&map) as usize + std::mem::size_of::<FMap>());
     let logs: Vec<Arc<Mutex<Option<ThreadLogOut>>>> = (0..prog.threads.len()).map(|_| Arc::new(Mutex::new(None))).collect();
     let events: Arc<Mutex<Vec<Ev>>> = Arc::new(Mutex::new(Vec::new()));
     let retire_fail: Arc<Mutex<Option<String>>> = Arc::new(Mutex::new(None));
@@ -775,6 +800,7 @@ pub fn exec(pool: &Pool, prog: &Prog, spec: SchedSpec<'_>, opts: &ExecOpts, map_
         None
     };
     ConcOut {
+        map_range,
         recs,
         verdict: out.verdict,
         trace: out.trace,
@@ -841,8 +867,9 @@ pub fn ccfg_strategy() -> impl Strategy<Value = CCfg> {
         prop_oneof![2 => Just(0u32), 1 => Just(1u32), 2 => Just(20u32), 3 => Just(42u32), 1 => Just(85u32), 1 => 2u32..40],
         prop_oneof![3 => Just(1u32), 1 => Just(2u32), 1 => Just(8u32), 1 => Just(120u32)],
         prop_oneof![2 => Just(GuardMode::PerOp), 2 => Just(GuardMode::PerThread), 1 => Just(GuardMode::Pin)],
+        prop_oneof![6 => Just(0u8), 2 => Just(1u8), 1 => Just(2u8), 1 => Just(3u8)],
     )
-        .prop_map(|(hmode, capacity, batch, gmode)| CCfg { hmode, capacity, batch, gmode })
+        .prop_map(|(hmode, capacity, batch, gmode, hot_pat)| CCfg { hmode, capacity, batch, gmode, hot_pat })
 }
 
 /// number of filler keys that brings a table created with `capacity` to `delta` below its threshold
@@ -866,6 +893,14 @@ pub enum Mix {
     Readers,
     /// C07: full iterations while other threads push the table over its resize threshold
     IterResize,
+    /// a 64/128-bin table at its threshold, two or more threads inserting fresh keys (several
+    /// threads take part in one resize) while others update / remove / read present keys that sit in
+    /// bins all over the table: helpers joining through every path (explored with sampled
+    /// three-preemption schedules over the control words)
+    Helpers,
+    /// a tree bin in a 64-bin table at its threshold whose keys go to the low half, the high half
+    /// or both when the table is split, with readers inside the tree while it migrates
+    TreeMove,
     /// a crowded list bin that one thread extends (-> treeify) while another drains it with
     /// retain / retain_force / removes: opens the windows around late treeification
     Drain,
@@ -927,6 +962,30 @@ pub fn cop_strategy(mix: Mix, hot: u16) -> BoxedStrategy<COp> {
         ]
         .boxed(),
         Mix::Long => (16u16..200).prop_map(COp::Insert).boxed(),
+        Mix::Helpers => {
+            let present = (16u16..40).boxed();
+            prop_oneof![
+                4 => present.clone().prop_map(COp::Remove),
+                1 => present.clone().prop_map(COp::RemoveEntry),
+                3 => (present.clone(), act.clone()).prop_map(|(k, a)| COp::Compute(k, a)),
+                2 => present.clone().prop_map(COp::Get),
+                2 => present.clone().prop_map(COp::Insert),
+                1 => present.clone().prop_map(COp::TryInsert),
+                3 => (40u16..60).prop_map(COp::Insert),
+            ]
+            .boxed()
+        }
+        Mix::TreeMove => prop_oneof![
+            4 => k.clone().prop_map(COp::Get),
+            1 => k.clone().prop_map(COp::GetKV),
+            1 => k.clone().prop_map(COp::Contains),
+            2 => (0u8..3).prop_map(COp::IterAll),
+            3 => k.clone().prop_map(COp::Remove),
+            2 => k.clone().prop_map(COp::Insert),
+            2 => (k.clone(), act.clone()).prop_map(|(k, a)| COp::Compute(k, a)),
+            3 => (20u16..40).prop_map(COp::Insert),
+        ]
+        .boxed(),
         Mix::LongReaders => {
             let kk = prop_oneof![3 => 0u16..10, 2 => 16u16..30].boxed();
             prop_oneof![
@@ -1037,12 +1096,81 @@ fn long_prog_strategy(max_threads: usize, max_ops: usize) -> BoxedStrategy<Prog>
                 }
                 threads.push(ops);
             }
-            Prog { cfg: CCfg { hmode, capacity, batch, gmode: GuardMode::PerOp }, filler: 0, hot_init: vec![], threads }
+            Prog { cfg: CCfg { hmode, capacity, batch, gmode: GuardMode::PerOp, hot_pat: 0 }, filler: 0, hot_init: vec![], threads }
+        })
+        .boxed()
+}
+
+fn helpers_prog_strategy(max_threads: usize) -> BoxedStrategy<Prog> {
+    let hm = prop_oneof![3 => Just(HMode::Identity), 2 => Just(HMode::Mix)];
+    let present = proptest::collection::btree_set(16u16..40, 6..14);
+    let inserter = (proptest::collection::vec((40u16..60).prop_map(COp::Insert), 1..3), proptest::option::of(cop_strategy(Mix::Helpers, 0))).prop_map(|(mut v, e)| {
+        v.extend(e);
+        v
+    });
+    let victim = proptest::collection::vec(cop_strategy(Mix::Helpers, 0), 1..4);
+    let extra = proptest::option::of(proptest::collection::vec(cop_strategy(Mix::Helpers, 0), 1..3));
+    (
+        (hm, prop_oneof![3 => Just(42u32), 1 => Just(85u32)], prop_oneof![Just(1u32), Just(8u32), Just(120u32)], prop_oneof![Just(GuardMode::PerOp), Just(GuardMode::PerThread), Just(GuardMode::Pin)]),
+        present,
+        0i32..3,
+        (inserter.clone(), inserter, victim, extra),
+        any::<u8>(),
+    )
+        .prop_map(move |((hmode, capacity, batch, gmode), present, delta, (a, b, c, d), order)| {
+            let hot_init: Vec<u16> = present.into_iter().collect();
+            let filler = near_threshold_filler(capacity, delta, hot_init.len());
+            let mut threads = vec![a, b, c];
+            if let (Some(d), true) = (d, max_threads >= 4) {
+                threads.push(d);
+            }
+            // the base (run-to-completion) order decides who initiates the resize: rotate it
+            let r = order as usize % threads.len();
+            threads.rotate_left(r);
+            Prog { cfg: CCfg { hmode, capacity, batch, gmode, hot_pat: 0 }, filler, hot_init, threads }
+        })
+        .boxed()
+}
+
+fn treemove_prog_strategy(max_threads: usize) -> BoxedStrategy<Prog> {
+    let hm = prop_oneof![5 => Just(HMode::Identity), 1 => Just(HMode::ConstMax), 1 => Just(HMode::SameBin)];
+    let pat = prop_oneof![2 => Just(0u8), 3 => Just(1u8), 2 => Just(2u8), 2 => Just(3u8)];
+    let reader_op = |hot: u16| {
+        let k = key_strategy(hot);
+        prop_oneof![4 => k.clone().prop_map(COp::Get), 1 => k.clone().prop_map(COp::GetKV), 1 => k.prop_map(COp::Contains), 1 => (0u8..3).prop_map(COp::IterAll)].boxed()
+    };
+    (hm, pat, 9u16..13, 0i32..3, prop_oneof![Just(1u32), Just(8u32), Just(120u32)], prop_oneof![Just(GuardMode::PerOp), Just(GuardMode::PerThread), Just(GuardMode::Pin)], any::<u8>())
+        .prop_flat_map(move |(hmode, hot_pat, n, delta, batch, gmode, order)| {
+            let hot = (n + 2).min(14);
+            let reader = (proptest::collection::vec(reader_op(hot), 1..3), proptest::collection::vec(cop_strategy(Mix::TreeMove, hot), 0..2)).prop_map(|(mut a, b)| {
+                a.extend(b);
+                a
+            });
+            let resizer = (proptest::collection::vec((20u16..40).prop_map(COp::Insert), 1..4), proptest::collection::vec(cop_strategy(Mix::TreeMove, hot), 0..2)).prop_map(|(mut a, b)| {
+                a.extend(b);
+                a
+            });
+            let third = proptest::option::of(proptest::collection::vec(cop_strategy(Mix::TreeMove, hot), 1..3));
+            (reader, resizer, third).prop_map(move |(a, b, c)| {
+                let mut threads = vec![a, b];
+                if let (Some(c), true) = (c, max_threads >= 3) {
+                    threads.push(c);
+                }
+                let r = order as usize % threads.len();
+                threads.rotate_left(r);
+                Prog { cfg: CCfg { hmode, capacity: 43, batch, gmode, hot_pat }, filler: near_threshold_filler(43, delta, n as usize), hot_init: (0..n).collect(), threads }
+            })
         })
         .boxed()
 }
 
 pub fn prog_strategy(mix: Mix, max_threads: usize, max_ops: usize) -> BoxedStrategy<Prog> {
+    if mix == Mix::Helpers {
+        return helpers_prog_strategy(max_threads);
+    }
+    if mix == Mix::TreeMove {
+        return treemove_prog_strategy(max_threads);
+    }
     if mix == Mix::Drain {
         return drain_prog_strategy(max_threads);
     }
@@ -1057,7 +1185,7 @@ pub fn prog_strategy(mix: Mix, max_threads: usize, max_ops: usize) -> BoxedStrat
                 let mut hot_init = hot.clone();
                 hot_init.sort();
                 hot_init.dedup();
-                let cfg = CCfg { hmode, capacity, batch, gmode };
+                let cfg = CCfg { hmode, capacity, batch, gmode, hot_pat: 0 };
                 let thread = proptest::collection::vec(cop_strategy(mix, 10), mo / 2..=mo);
                 proptest::collection::vec(thread, 4..=max_threads.max(4)).prop_map(move |threads| Prog { cfg: cfg.clone(), filler, hot_init: hot_init.clone(), threads })
             })
@@ -1130,6 +1258,9 @@ pub struct Budget {
     /// number of random sparse-preemption tapes
     pub tapes: usize,
     pub tape_seed: u64,
+    /// number of sampled three-preemption schedules whose preemption points are accesses to the
+    /// map's control words (the resize election / counting protocol)
+    pub triple: usize,
 }
 
 #[derive(Clone, Debug, Serialize, Deserialize)]
@@ -1269,6 +1400,44 @@ pub fn explore(pool: &Pool, prog: &Prog, budget: &Budget, opts: &ExecOpts, mk_pr
                 if run_one(&mut ex, vec![(*s, *u), (*s2, *v)], None, false).is_none() {
                     return ex;
                 }
+            }
+        }
+    }
+    // sampled three-preemption schedules over the control-word accesses: each level is chosen from
+    // the trace of the execution one level up, so the points exist in the schedule they extend
+    let mut rng = crate::runner::splitmix(budget.tape_seed ^ 0x7a11_c0de);
+    let ctl_cands = |out: &ConcOut, after: u64| -> Vec<(u64, u8)> {
+        let mut last = vec![0u64; n];
+        for t in &out.trace {
+            last[t.thread as usize] = t.step;
+        }
+        let mut started = vec![false; n];
+        let mut v = Vec::new();
+        for t in &out.trace {
+            started[t.thread as usize] = true;
+            if t.step > after && t.addr >= out.map_range.0 && t.addr < out.map_range.1 {
+                for u in 0..n {
+                    if u as u8 != t.thread && (!started[u] || last[u] > t.step) {
+                        v.push((t.step, u as u8));
+                    }
+                }
+            }
+        }
+        v
+    };
+    for _ in 0..budget.triple {
+        let mut sw: Vec<(u64, u8)> = Vec::new();
+        let mut cur: Option<ConcOut> = None;
+        for level in 0..3 {
+            let cands = ctl_cands(cur.as_ref().unwrap_or(&base), sw.last().map_or(0, |x| x.0));
+            if cands.is_empty() {
+                break;
+            }
+            rng = crate::runner::splitmix(rng);
+            sw.push(cands[(rng % cands.len() as u64) as usize]);
+            match run_one(&mut ex, sw.clone(), None, level < 2) {
+                Some(o) => cur = Some(o),
+                None => return ex,
             }
         }
     }
